@@ -80,6 +80,8 @@ theorem oci_cancelTimer_other (s : Stack) (own : Cb → Bool) (t : Option Nat) (
 @[simp] theorem oci_with_sendLog (s : Stack) (x : List (Dest × (Bool × Nat))) : oci { s with sendLog := x } = oci s := rfl
 @[simp] theorem oci_with_outgoing_sendLog (s : Stack) (x : Outgoing) (y : List (Dest × (Bool × Nat))) : oci { s with outgoing := x, sendLog := y } = oci s := rfl
 @[simp] theorem oci_with_findLog (s : Stack) (x : List (Nat × Nat)) : oci { s with findLog := x } = oci s := rfl
+@[simp] theorem oci_with_findMarks (s : Stack) (x : List (Nat × Nat)) : oci { s with findMarks := x } = oci s := rfl
+@[simp] theorem oci_markFind (s : Stack) (n : Nat) : oci (s.markFind n) = oci s := rfl
 @[simp] theorem oci_with_offLog (s : Stack) (x : List (Nat × OEv × Nat)) : oci { s with offLog := x } = oci s := rfl
 @[simp] theorem oci_logOffer (s : Stack) (i : Nat) (e : OEv) : oci (s.logOffer i e) = oci s := rfl
 @[simp] theorem oci_with_flushLog (s : Stack) (x : List (Dest × List SDEntry)) : oci { s with flushLog := x } = oci s := rfl
